@@ -1073,3 +1073,59 @@ func columnIndexValue(v ssa.Value, d int) ssa.Value {
 	}
 	return nil
 }
+
+func init() {
+	register(&Rule{
+		ID: "metriclog.file-order-numeric", Props: []string{"C17"}, Floor: 1,
+		Doc: "the comparator that orders metric log files decides by a lexicographic string comparison only where that agrees with the numeric order of the roll numbers: the two strings are known to have equal length (a length comparison or a zero length difference dominates), or they are the (fixed-width) date parts on the branch where the dates differ. A plain string comparison of roll numbers puts `.10` before `.2`: after ten rolls in a day the searcher skips retained files, retention deletes the newest ones and the writer reopens (truncates) a file that is not the latest",
+		Run: func(c *Ctx) {
+			f := c.P.Func(mlPkg + ".filenameComparator")
+			if f == nil {
+				c.AnchorLost("metric filenameComparator")
+				return
+			}
+			n := 0
+			for _, g := range withNewHelpers(withAnon(f)) {
+				k := 0
+				eachInstr(g, func(ins ssa.Instruction) {
+					b, ok := ins.(*ssa.BinOp)
+					if !ok || (b.Op != token.LSS && b.Op != token.GTR && b.Op != token.LEQ && b.Op != token.GEQ) {
+						return
+					}
+					bt, ok := b.X.Type().Underlying().(*types.Basic)
+					if !ok || bt.Info()&types.IsString == 0 {
+						return
+					}
+					n++
+					k++
+					key := fmt.Sprintf("%s / string-order#%d", fnKey(g), k)
+					xs, ys := accessPath(b.X), accessPath(b.Y)
+					fs := canonFacts(b.Block())
+					why := ""
+					for fct := range fs {
+						switch {
+						case strings.Contains(fct, "len(") && (strings.HasSuffix(fct, " == 0") || strings.HasPrefix(fct, "0 == ") || (strings.Contains(fct, " == ") && strings.Count(fct, "len(") >= 2)):
+							why = "equal lengths: " + fct
+						case fct == xs+" != "+ys || fct == ys+" != "+xs:
+							if why == "" {
+								why = "the operands differ and are the first key (date parts): " + fct
+							}
+						}
+					}
+					// the `differ` justification holds for the first key only: not below an equality of an earlier key
+					if strings.HasPrefix(why, "the operands differ") {
+						for fct := range fs {
+							if strings.Contains(fct, " == ") && !strings.Contains(fct, "len(") && !strings.Contains(fct, "nil") && strings.Contains(fct, "strings.Split(") {
+								why = ""
+							}
+						}
+					}
+					c.Check(why != "", key, b.Pos(), "%s %s %s decides the file order only where it agrees with numeric order (%s)", xs, b.Op, ys, why)
+				})
+			}
+			if n == 0 {
+				c.Hold(fnKey(f)+" / string-order", f.Pos(), "the comparator makes no lexicographic string comparison")
+			}
+		},
+	})
+}
